@@ -23,7 +23,7 @@ using namespace ASAM::CMP;
 
 struct PSnap
 {
-    bool hasPayload;
+    bool hasPayload, valid;
     uint8_t version, streamId, flags, seg;
     uint16_t deviceId, seq, vendorId, len;
     uint32_t ifId, type;
@@ -34,6 +34,7 @@ struct PSnap
 static void snap(const Packet& p, PSnap& s, bool hasPayload)
 {
     s.hasPayload = hasPayload;
+    s.valid = p.isValid();
     s.version = p.getVersion();
     s.streamId = p.getStreamId();
     s.deviceId = p.getDeviceId();
@@ -60,7 +61,7 @@ static void snap(const Packet& p, PSnap& s, bool hasPayload)
 
 static bool same(const PSnap& a, const PSnap& b)
 {
-    bool eq = a.hasPayload == b.hasPayload && a.version == b.version && a.streamId == b.streamId && a.deviceId == b.deviceId && a.seq == b.seq &&
+    bool eq = a.hasPayload == b.hasPayload && a.valid == b.valid && a.version == b.version && a.streamId == b.streamId && a.deviceId == b.deviceId && a.seq == b.seq &&
               a.ts == b.ts && a.ifId == b.ifId && a.vendorId == b.vendorId && a.flags == b.flags && a.seg == b.seg && a.len == b.len &&
               a.type == b.type;
     for (unsigned i = 0; i < LMAXV; ++i)
@@ -173,11 +174,14 @@ VP_HARNESS(h_payload_eq)
     vp_bytes(da, la);
     vp_bytes(db, lb);
     const uint8_t ta = vp_u8(), tb = vp_u8();
-    Payload* a = new Payload(PayloadType(CmpHeader::MessageType::data, ta), da, la);
-    Payload* b = new Payload(PayloadType(CmpHeader::MessageType::data, tb), db, lb);
+    const uint8_t ma = vp_u8(), mb = vp_u8();  // message-type half of the payload type
+    vp_assume(ma != 0 && mb != 0);
+    vp_assume(!(ma == 0xFF && ta == 0xFF) && !(mb == 0xFF && tb == 0xFF));  // 0xFFFF is TECMP's "invalid" type: such a payload does not keep its data
+    Payload* a = new Payload(PayloadType(static_cast<CmpHeader::MessageType>(ma), ta), da, la);
+    Payload* b = new Payload(PayloadType(static_cast<CmpHeader::MessageType>(mb), tb), db, lb);
     vp_assert(*a == *a, "C14: payload equality is reflexive");
     vp_assert((*a == *b) == (*b == *a), "C14: payload equality is symmetric");
-    bool fieldwise = ta == tb && la == lb;
+    bool fieldwise = ta == tb && ma == mb && la == lb;
     for (unsigned i = 0; i < LMAXV; ++i)
         if (i < la && i < lb)
             fieldwise = fieldwise && da[i] == db[i];
@@ -188,11 +192,38 @@ VP_HARNESS(h_payload_eq)
     Payload* m = new Payload(std::move(*c));
     vp_assert(*m == *a, "C14: a moved-to payload equals the source's former state");
 
-    TECMP::Payload* x = new TECMP::Payload(TECMP::PayloadType(0x0300u | ta), da, la);
-    TECMP::Payload* y = new TECMP::Payload(TECMP::PayloadType(0x0300u | tb), db, lb);
+    TECMP::Payload* x = new TECMP::Payload(TECMP::PayloadType((static_cast<uint32_t>(ma) << 8) | ta), da, la);
+    TECMP::Payload* y = new TECMP::Payload(TECMP::PayloadType((static_cast<uint32_t>(mb) << 8) | tb), db, lb);
     vp_assert(*x == *x, "C14: TECMP payload equality is reflexive");
     vp_assert((*x == *y) == (*y == *x), "C14: TECMP payload equality is symmetric");
     vp_assert((*x == *y) == fieldwise, "C14: TECMP payload equality agrees with type, length and bytes");
     TECMP::Payload* z = new TECMP::Payload(*x);
     vp_assert(*z == *x, "C14: a TECMP payload copy compares equal to its original");
+}
+
+
+// assignment onto a target that differs from the source only in the payload's message type (or only in one field)
+VP_HARNESS(h_packet_assign_diff)
+{
+    static uint8_t buf[16 + LMAXV];
+    const unsigned la = LA > 0 ? LA : 1;
+    vp_bytes(buf, 16 + la);
+    buf[12] &= 0xBF;
+    buf[13] = 0x42;
+    vp_put16(buf + 14, static_cast<uint16_t>(la));
+    Packet* a = new Packet(CmpHeader::MessageType::data, buf, 16 + la);
+    Packet* t = new Packet(CmpHeader::MessageType::status, buf, 16 + la);
+    const uint8_t which = vp_u8();
+    vp_assume(which < 4);
+    if (which == 1)
+        t->setInterfaceId(~a->getInterfaceId());
+    if (which == 2)
+        t->setVersion(static_cast<uint8_t>(a->getVersion() + 1));
+    if (which == 3)
+        t->getPayload().setMessageType(CmpHeader::MessageType::data), t->getPayload().setRawPayloadType(0x43);
+    vp_assert(!(*a == *t) && (*a != *t), "C14: packets that differ in the payload's message type (or any field) are unequal");
+    *t = *a;
+    vp_assert(t->getPayload().getType() == a->getPayload().getType() && t->getInterfaceId() == a->getInterfaceId() && t->getVersion() == a->getVersion() && t->getVendorId() == a->getVendorId(),
+              "C14: assignment makes the target equal to the source even when the two looked alike before");
+    vp_assert(*t == *a, "C14: after assignment target and source compare equal");
 }
